@@ -32,6 +32,19 @@ BOX = {phi: (-1.5, 1.5), lam: (-3.1, 3.1), h: (-1e4, 1e5),
 COSNN = (phi, phi2)
 
 
+def perturb_contract(ctx, py, prefix):
+    """perturb_lla against its closed form for ALL longitudes, the antimeridian included (the result is lon + dE / r_p as
+    it stands: every consumer -- compute_state_difference, the measurement models -- subtracts longitudes without
+    wrapping); also used by the properties whose code reaches perturb_lla through correct_pva (C05, C12, C13)"""
+    T = py.transform
+    box = dict(BOX)
+    box[lam] = (-math.pi, math.pi)
+    eq_spec(ctx, "%s.perturb.closed_form" % prefix, [phi, lam, h, dN, dE, dD],
+            lambda v: T.perturb_lla([deg(v["phi"]), deg(v["lam"]), v["h"]], [v["dN"], v["dE"], v["dD"]]),
+            lambda v: _perturb_spec(v["phi"], v["lam"], v["h"], v["dN"], v["dE"], v["dD"]),
+            box, cos_nonneg=COSNN, py=py, cell_names=["lat", "lon", "alt"])
+
+
 def run(ctx):
     py = load()
     E, T = py.earth, py.transform
@@ -102,10 +115,7 @@ def run(ctx):
     _lemma_matrix(ctx, "C16.frame.axes.dalt", sp.diff(r, h) + down, cos_nonneg=COSNN)
 
     # ---- perturbation / difference / NED coordinates -----------------------------------
-    eq_spec(ctx, "C16.perturb.closed_form", [phi, lam, h, dN, dE, dD],
-            lambda v: T.perturb_lla([deg(v["phi"]), deg(v["lam"]), v["h"]], [v["dN"], v["dE"], v["dD"]]),
-            lambda v: _perturb_spec(v["phi"], v["lam"], v["h"], v["dN"], v["dE"], v["dD"]),
-            BOX, cos_nonneg=COSNN, py=py, cell_names=["lat", "lon", "alt"])
+    perturb_contract(ctx, py, "C16")
     d = [dN, dE, dD]
     want01 = lambda v: [[0, v["dN"]], [0, v["dE"]], [0, v["dD"]]]
     taylor_spec(ctx, "C16.ned.order1", [phi, lam, h, dN, dE, dD], eps,
